@@ -22,7 +22,9 @@ pub fn verif_dir() -> String {
 pub fn families(property: &str, tier: &str) -> Vec<Family> {
     let thorough = tier == "thorough";
     match property {
-        "C01" | "C02" | "C04" => vec![Family { name: "hist", weight: 1, gen: crate::hist::generate }],
+        "C01" => vec![Family { name: "hist", weight: 3, gen: crate::hist::generate }, Family { name: "routes", weight: 1, gen: crate::routes::generate }],
+        "C02" => vec![Family { name: "hist", weight: 1, gen: crate::hist::generate }],
+        "C04" => vec![Family { name: "hist", weight: 3, gen: crate::hist::generate }, Family { name: "panics", weight: 1, gen: crate::panics::generate }],
         "C03" => vec![Family { name: "hist", weight: 1, gen: crate::hist::generate }, Family { name: "tap", weight: 2, gen: crate::net::generate_tap }],
         "C05" => vec![Family { name: "hist", weight: 2, gen: crate::hist::generate }, Family { name: "store", weight: 1, gen: crate::net::generate_store }],
         "C07" => vec![Family { name: "hist", weight: 2, gen: crate::hist::generate }, Family { name: "replica", weight: 1, gen: crate::replica::generate }],
@@ -52,6 +54,7 @@ pub fn dispatch(scn: &Scenario, ctx: &mut Ctx) -> Result<(), String> {
         "hist" => crate::hist::run(scn, ctx),
         "wire" => crate::wire::run(scn, ctx),
         "replica" => crate::replica::run(scn, ctx),
+        "routes" => crate::routes::run(scn, ctx),
         "tap" => crate::net::run_tap(scn, ctx),
         "store" => crate::net::run_store(scn, ctx),
         "tamper" => crate::tamper::run(scn, ctx),
@@ -287,11 +290,19 @@ pub fn replay(path: &str) -> Result<i32, String> {
     }
 }
 
-fn confirm_in_fresh_process(path: &str, oracle: &str) -> Result<bool, String> {
+/// Replay in a fresh process. A violation that depends on the library's hash-iteration order (std
+/// RandomState, which the simulator does not control) reproduces with probability < 1 per process, so up
+/// to five fresh processes are tried; returns how many were needed.
+fn confirm_in_fresh_process(path: &str, oracle: &str) -> Result<Option<u32>, String> {
     let exe = std::env::current_exe().map_err(|e| e.to_string())?;
-    let out = std::process::Command::new(exe).args(["replay", path]).output().map_err(|e| e.to_string())?;
-    let so = String::from_utf8_lossy(&out.stdout);
-    Ok(out.status.code() == Some(1) && so.contains(&format!("REPRODUCED property=")) && so.contains(&format!("oracle={}", oracle)))
+    for attempt in 1..=5u32 {
+        let out = std::process::Command::new(&exe).args(["replay", path]).output().map_err(|e| e.to_string())?;
+        let so = String::from_utf8_lossy(&out.stdout);
+        if out.status.code() == Some(1) && so.contains("REPRODUCED property=") && so.contains(&format!("oracle={}", oracle)) {
+            return Ok(Some(attempt));
+        }
+    }
+    Ok(None)
 }
 
 // ---------------------------------------------------------------------------------------
@@ -519,13 +530,28 @@ fn run_check(property: &str, tier: &str) -> Result<i32, String> {
                 continue;
             }
             let path = write_replay(&min, &mv, tier, master, *idx, scn.steps.len(), execs)?;
-            if confirm_in_fresh_process(&path, &mv.oracle)? {
-                println!("violation: oracle={} run={} steps {}->{}: {}", mv.oracle, idx, scn.steps.len(), min.steps.len(), mv.msg);
-                println!("VIOLATION property={} replay={}", property, path);
-                new_violations += 1;
-                exit = 1;
-            } else {
-                return Err(format!("violation {} at run {} did not reproduce from its replay file {} in a fresh process", mv.oracle, idx, path));
+            let mut confirmed = confirm_in_fresh_process(&path, &mv.oracle)?;
+            let mut reported = (min.clone(), mv.clone(), path.clone());
+            if confirmed.is_none() {
+                // fall back to the un-minimised scenario (minimisation under hash-order nondeterminism can over-shrink)
+                let raw_path = write_replay(&scn, v, tier, master, *idx + 1_000_000_000, scn.steps.len(), 0)?;
+                confirmed = confirm_in_fresh_process(&raw_path, &v.oracle)?;
+                reported = (scn.clone(), v.clone(), raw_path);
+            }
+            match confirmed {
+                Some(attempts) => {
+                    let (rs, rv, rp) = reported;
+                    println!("violation: oracle={} run={} steps {}->{}: {}", rv.oracle, idx, scn.steps.len(), rs.steps.len(), rv.msg);
+                    if attempts > 1 {
+                        println!("note: the violation depends on hash-iteration order inside the library; it reproduced in fresh process #{}", attempts);
+                    }
+                    println!("VIOLATION property={} replay={}", property, rp);
+                    new_violations += 1;
+                    exit = 1;
+                }
+                None => {
+                    return Err(format!("violation {} at run {} did not reproduce from its replay file {} in five fresh processes", mv.oracle, idx, path));
+                }
             }
         }
     }
